@@ -325,6 +325,8 @@ pub struct Case {
     pub back_to_back: bool,
     pub small_read: bool,
     pub workers: usize, // 0 = current_thread with virtual time
+    /// raw frames injected by an extra machine (C14): (time ms, destination MAC or None, is_arp, bytes)
+    pub inject: Vec<(u64, Option<u64>, bool, Vec<u8>)>,
 }
 
 fn gen_script(e: &mut Entropy, b2b: &mut bool, small: &mut bool, max_total: usize, mtu: u16) -> (Vec<Act>, usize) {
@@ -425,10 +427,12 @@ pub fn gen_case(e: &mut Entropy, workers: usize) -> Case {
         back_to_back: b2b,
         small_read: small,
         workers,
+        inject: vec![],
     }
 }
 
 pub struct Outcome {
+    pub demux: Vec<DemuxRec>,
     pub reports: Vec<ConnReport>,
     pub frames: Vec<FrameRec>,
     pub status: String,
@@ -478,12 +482,22 @@ pub fn build_and_run(case: &Case) -> Outcome {
         }
         m
     };
-    let mut machines = vec![base(server_ip).with(StreamServer { port: 80, scripts: case.server_scripts.clone(), reports: reports.clone(), remaining: remaining.clone(), first_read: case.first_read }).arc()];
+    let log: DemuxLog = Default::default();
+    let bind_results = Arc::new(Mutex::new(vec![]));
+    let mut server_machine = base(server_ip);
+    if !case.inject.is_empty() {
+        // a UDP listener that must never see an injected frame
+        server_machine = with_recorder(server_machine, 0, 0, &wire, &log, vec![Endpoint::new(server_ip, 9)], &bind_results);
+    }
+    let mut machines = vec![server_machine.with(StreamServer { port: 80, scripts: case.server_scripts.clone(), reports: reports.clone(), remaining: remaining.clone(), first_read: case.first_read }).arc()];
     for c in 0..case.nclients {
         let ip = Ipv4Address::new([10, 1, 0, 10 + c as u8]);
         machines.push(base(ip).with(StreamClient { conn: c, server: Endpoint::new(server_ip, 80), script: case.client_scripts[c].clone(), reports: reports.clone(), remaining: remaining.clone(), start_delay_ms: case.start_delays[c] }).arc());
     }
-    let horizon = Duration::from_secs(if case.workers == 0 { 600 } else { 20 });
+    if !case.inject.is_empty() {
+        machines.push(Machine::new().with(Pci::new([net.clone()])).with(RawInjector { frames: case.inject.clone() }).arc());
+    }
+    let horizon = Duration::from_secs(if case.workers == 0 { 120 } else { 20 });
     let (status, panics, watchdog) = if case.workers == 0 {
         let (st, panics) = run_virtual(async { run_internet_with_timeout(&machines, horizon).await });
         (st.map(|s| format!("{s:?}")).unwrap_or("panicked".into()), panics, false)
@@ -499,7 +513,8 @@ pub fn build_and_run(case: &Case) -> Outcome {
         (st.map(|s| format!("{s:?}")).unwrap_or("panicked".into()), panics, wd)
     };
     let reports = reports.lock().unwrap().clone();
-    Outcome { reports, frames: wire.snapshot(), status, panics, watchdog }
+    let demux = log.lock().unwrap().clone();
+    Outcome { demux, reports, frames: wire.snapshot(), status, panics, watchdog }
 }
 
 pub fn judge(case: &Case, out: &Outcome, ctx: &mut Ctx) -> Result<(), Failure> {
@@ -653,6 +668,35 @@ impl Check for StreamSockets {
             ctx.class("short_read_seen");
         }
         ctx.measure("max_frames", out.frames.len() as f64);
+        Ok(())
+    }
+}
+
+
+/// Sends prepared raw frames (C14): the frame's target protocol is Ipv4 or Arp.
+pub struct RawInjector {
+    pub frames: Vec<(u64, Option<u64>, bool, Vec<u8>)>,
+}
+
+#[async_trait]
+impl Protocol for RawInjector {
+    async fn start(&self, _shutdown: Shutdown, initialized: Arc<Barrier>, machine: Arc<Machine>) -> Result<(), StartError> {
+        initialized.wait().await;
+        let frames = self.frames.clone();
+        tokio::spawn(async move {
+            let t0 = tokio::time::Instant::now();
+            let pci = machine.protocol::<Pci>().unwrap();
+            let mut frames = frames;
+            frames.sort_by_key(|f| f.0);
+            for (at, dest, is_arp, bytes) in frames {
+                tokio::time::sleep_until(t0 + Duration::from_millis(at)).await;
+                let proto = if is_arp { std::any::TypeId::of::<Arp>() } else { std::any::TypeId::of::<Ipv4>() };
+                let _ = pci.open(0).send_pci(Message::new(bytes), dest, proto);
+            }
+        });
+        Ok(())
+    }
+    fn demux(&self, _m: Message, _c: Arc<dyn Session>, _ctl: Control, _machine: Arc<Machine>) -> Result<(), DemuxError> {
         Ok(())
     }
 }
